@@ -25,6 +25,7 @@ type Config struct {
 	ExactDecimal     bool
 	StructuredKeys   bool
 	DecodeMaxLen     int
+	DecodeMaxAt      map[string]int
 	ParamMaxLen      int
 	Solver           string
 	LogSMT           string
